@@ -57,6 +57,16 @@ def check(ctx: Ctx) -> None:
     # the collector's reachable set is what the parsers hand it: a parser that drops entries makes live files look unreachable
     from .c14 import parsers_keep_every_entry
     parsers_keep_every_entry(ctx, "C05.R14")
+    # the marker listing must be complete: a marker on page 2 that is never requested protects nothing
+    from .c20 import r10_listing_exhaustive
+    r10_listing_exhaustive(ctx, "C05.R15")
+    # marker / file ages decide what is abandoned or collectable: on S3 they come from LastModified and must be UTC-correct
+    from .c20 import r11_utc_ages
+    r11_utc_ages(ctx, "C05.R16")
+    # "for any spelling of the table location ... S3 prefix": keys are the plain prefix join, so what the collector lists is what
+    # the manifests name
+    from .c20 import r9_key_roundtrip
+    r9_key_roundtrip(ctx, "C05.R17")
 
 
 class Contrib:
